@@ -264,8 +264,9 @@ def install_pass_monitors():
         from sqlparse.engine import grouping
         names = [n for n in grouping.group.__code__.co_names
                  if callable(getattr(grouping, n, None))
-                 and getattr(getattr(grouping, n), '__module__', '')
-                 == grouping.__name__]
+                 and str(getattr(getattr(grouping, n), '__module__', ''))
+                 .startswith('sqlparse') and n != 'group'
+                 and not isinstance(getattr(grouping, n), type)]
     except Exception:
         STATE.unavailable.append('M-PASS (grouping.group)')
         return False
